@@ -448,7 +448,8 @@ static void simulate(struct trial_hdr *t)
         }
         free(logbuf);
     }
-    cmb_random_terminate();
+    /* no cmb_random_terminate(): nothing obliges a trial to call it, and the next trial on this thread must be independent
+     * of the generator state left here */
     t->digest = w.h;
 }
 
